@@ -211,7 +211,14 @@ class BoostNpcLinearOperator(NpcLinearOperatorWrapper):
 
     def to_matrix(self):
         mat = self.orig_operator.to_matrix()
-        return mat + self.shift * npc.eye_like(mat)
+        labels = mat.get_leg_labels()
+        for b, bv in zip(self.boosts, self.boost_vecs):
+            if bv.rank > 1:
+                bv = bv.combine_legs(bv.get_leg_labels(), qconj=mat.legs[0].qconj)
+            proj = npc.outer(bv, bv.conj())
+            proj.iset_leg_labels(labels)
+            mat = mat + b * proj
+        return mat
 
     def adjoint(self):
         return BoostNpcLinearOperator(self.orig_operator.adjoint(), np.conj(self.boosts), self.boost_vecs)
